@@ -24,6 +24,9 @@ class G[T]:
 @guppy.struct
 class H[T, n: nat]:
     a: array[T, n]
+@guppy.struct
+class F[x: float, b: bool]:
+    a: int
 """
 
 def pool(depth):
@@ -47,6 +50,9 @@ def pool(depth):
             nxt.append(f"tuple[{a}, int, {a}]")
         cur = [t for t in dict.fromkeys(nxt)]
         allt += cur
+    # a generic struct with float and bool const parameters (an int-typed or negative constant has no annotation
+    # syntax at all — such types only arise by inference — and is outside "parses back as an annotation")
+    allt += ["F[1.5, True]", "F[0.0, False]", "array[F[2.5, True], 2]", "tuple[int, F[0.5, False]]"]
     return list(dict.fromkeys(allt))
 
 def has_one_tuple(annotation):
@@ -95,7 +101,7 @@ def run_pool(anns):
                 t = parsed_input_type(getattr(m1, f"f{i}")); tys.append(t); strs.append(str(t))
             except GuppyError as e:
                 tys.append(None); strs.append(None)
-        src2 = PRE + "from c31_mod1 import S, G, H\n" + "\n".join(
+        src2 = PRE + "from c31_mod1 import S, G, H, F\n" + "\n".join(
             f"@guppy.declare\ndef g{i}(x: {s!r}) -> None: ...\n" for i, s in enumerate(strs) if s is not None)
         m2 = load("c31_mod2", src2, d)
         for i, (a, t, s) in enumerate(zip(anns, tys, strs)):
